@@ -224,9 +224,11 @@ def diff_feature(run, base, feature, variant):
 
 def run(run):
     if run.tier == 'thorough':
-        pairs = [(b, f) for f in 'PSHRDT' for b in ('', 'L', 'PSHL'.replace(f, ''))]
+        pairs = [(b, f) for f in 'PSHRDT' for b in ('', 'L', 'P', 'PSHL'.replace(f, ''))]
     else:
-        pairs = [('', 'H'), ('', 'S'), ('', 'P'), ('SH', 'P'), ('', 'R'), ('', 'D'), ('', 'T')]
+        # ('P', 'H'): the plan step exists on both sides and only the history is toggled -- code of one feature that is conditional on
+        # *another* feature's switch shows up in exactly such a pair
+        pairs = [('', 'H'), ('', 'S'), ('', 'P'), ('SH', 'P'), ('P', 'H'), ('P', 'S'), ('', 'R'), ('', 'D'), ('', 'T')]
     for base, f in pairs:
         if f in base:
             continue
